@@ -402,4 +402,115 @@ theorem sortOffs_sorted : ∀ l : List Off, (sortOffs l).Pairwise (· ≤ ·)
 theorem sortOffs_nodup (l : List Off) (h : l.Nodup) : (sortOffs l).Nodup :=
   (sortOffs_perm l).nodup_iff.2 h
 
+/-! ## reservation by unit -/
+
+
+namespace UnitHdr
+def endOff (u : UnitHdr) : Off := u.base + u.hdr + u.len
+
+theorem inb_nat (base hdr len o : Nat) :
+    (decide (base ≤ o) && (decide (hdr ≤ o - base) && decide (o - base - hdr < len))) = true ↔
+      base + hdr ≤ o ∧ o < base + hdr + len := by
+  simp only [Bool.and_eq_true, decide_eq_true_eq]
+  omega
+
+theorem containsOff_iff (u : UnitHdr) (o : Off) :
+    u.containsOff o = true ↔ u.base + u.hdr ≤ o ∧ o < u.endOff :=
+  inb_nat u.base u.hdr u.len o
+end UnitHdr
+
+theorem takeUnit_sorted (u : UnitHdr) : ∀ (os : List Off), os.Pairwise (· ≤ ·) →
+    (∀ o, o ∈ os → u.containsOff o = true ∨ u.endOff ≤ o) →
+    takeUnit u os = (os.filter u.containsOff, os.filter (fun o => !u.containsOff o)) := by
+  intro os
+  induction os with
+  | nil => intro _ _; rfl
+  | cons o os ih =>
+    intro hs hc
+    rw [List.pairwise_cons] at hs
+    rw [takeUnit]
+    by_cases hp : u.containsOff o = true
+    · have := ih hs.2 (fun x hx => hc x (List.mem_cons_of_mem _ hx))
+      simp [hp, this]
+    · have hge : u.endOff ≤ o := by
+        rcases hc o List.mem_cons_self with h | h
+        · exact (hp h).elim
+        · exact h
+      have hall : ∀ x, x ∈ os → u.containsOff x = false := by
+        intro x hx
+        have h1 : o ≤ x := hs.1 x hx
+        cases hcx : u.containsOff x with
+        | false => rfl
+        | true =>
+          have := ((UnitHdr.containsOff_iff u x).1 hcx).2
+          exact absurd (Nat.lt_of_lt_of_le this (Nat.le_trans hge h1)) (Nat.lt_irrefl _)
+      have hpf : u.containsOff o = false := by cases h : u.containsOff o <;> simp_all
+      have h1 : os.filter u.containsOff = [] := by
+        rw [List.filter_eq_nil_iff]; intro x hx; simp [hall x hx]
+      have h2 : os.filter (fun o => !u.containsOff o) = os := by
+        rw [List.filter_eq_self]; intro x hx; simp [hall x hx]
+      simp [hpf, h1, h2]
+
+
+
+
+
+theorem partition_sorted : ∀ (units : List UnitHdr) (offs : List Off),
+    offs.Pairwise (· ≤ ·) →
+    units.Pairwise (fun u v => u.endOff ≤ v.base) →
+    (∀ o, o ∈ offs → ∃ u, u ∈ units ∧ u.containsOff o = true) →
+    partition units offs = (units.map (fun u => offs.filter u.containsOff), []) := by
+  intro units
+  induction units with
+  | nil =>
+    intro offs _ _ hc
+    cases offs with
+    | nil => rfl
+    | cons o os => obtain ⟨u, hu, _⟩ := hc o List.mem_cons_self; cases hu
+  | cons u us ih =>
+    intro offs hs hu hc
+    rw [List.pairwise_cons] at hu
+    have hB : ∀ o, o ∈ offs → u.containsOff o = true ∨ u.endOff ≤ o := by
+      intro o ho
+      obtain ⟨v, hv, hvo⟩ := hc o ho
+      rcases List.mem_cons.1 hv with h | h
+      · subst h; exact Or.inl hvo
+      · right
+        have h1 := hu.1 v h
+        have h2 := ((UnitHdr.containsOff_iff v o).1 hvo).1
+        exact Nat.le_trans h1 (Nat.le_trans (Nat.le_add_right _ _) h2)
+    have ht := takeUnit_sorted u offs hs hB
+    rw [partition, ht]
+    simp only
+    have hrest : (offs.filter (fun o => !u.containsOff o)).Pairwise (· ≤ ·) := hs.filter _
+    have hcov : ∀ o, o ∈ offs.filter (fun o => !u.containsOff o) → ∃ v, v ∈ us ∧ v.containsOff o = true := by
+      intro o ho
+      rw [List.mem_filter] at ho
+      obtain ⟨v, hv, hvo⟩ := hc o ho.1
+      rcases List.mem_cons.1 hv with h | h
+      · subst h; simp [hvo] at ho
+      · exact ⟨v, h, hvo⟩
+    rw [ih _ hrest hu.2 hcov]
+    simp only [List.map_cons, Prod.mk.injEq, List.cons.injEq, true_and, and_true]
+    apply List.map_congr_left
+    intro v hv
+    rw [List.filter_filter]
+    apply List.filter_congr
+    intro o _
+    cases hvo : v.containsOff o with
+    | false => simp
+    | true =>
+      have h1 := hu.1 v hv
+      have h2 := ((UnitHdr.containsOff_iff v o).1 hvo).1
+      have h3 : u.containsOff o = false := by
+        cases huo : u.containsOff o with
+        | false => rfl
+        | true =>
+          have h4 := ((UnitHdr.containsOff_iff u o).1 huo).2
+          have : u.endOff ≤ o := Nat.le_trans h1 (Nat.le_trans (Nat.le_add_right _ _) h2)
+          exact absurd (Nat.lt_of_lt_of_le h4 this) (Nat.lt_irrefl _)
+      simp [h3]
+
+
+
 end Gimli.Filter
